@@ -155,7 +155,13 @@ func (routerNode *RouterNode) DyeGroupName(snakeStyleMiddleware bool) error {
 			if len(node.Handler) != 0 {
 				node.HandlerMiddleware = "_" + handlerMiddlewareName
 				if snakeStyleMiddleware {
-					node.HandlerMiddleware = "_" + node.RawHandlerName()
+					// one handler may serve several routes (a function with several
+					// annotations): each route needs a middleware function of its own
+					name, err := util.GetMiddlewareUniqueName(node.RawHandlerName())
+					if err != nil {
+						return fmt.Errorf("get unique name for middleware '%s' failed, err: %v", node.RawHandlerName(), err)
+					}
+					node.HandlerMiddleware = "_" + name
 				}
 			}
 			node.GroupMiddleware = node.MiddleWare
